@@ -38,6 +38,12 @@ def small_fn(rng, name):
     return pr
 
 
+def setup():
+    from ..monitors import reach
+
+    reach.install_paths(['qlasskit.tools.py2bexp:convert_to_bool_expression', 'qlasskit.tools.py2bexp:convert_to_dimacs', 'qlasskit.tools.py2qasm:convert_to_quasm', 'qlasskit.tools.tools:find_last_qlassf', 'qlasskit.tools.utils:parse_str'])
+
+
 def cases(tier, seed):
     rng = random.Random(17000 + seed)
     for c in CORPUS:
@@ -106,6 +112,15 @@ def dimacs_matches(nv, clauses, target, n, sp):
 
 
 def check(case):
+    from ..monitors import reach
+
+    r = _check_inner(case)
+    if isinstance(r, dict):
+        r.setdefault("counters", {}).update(reach.take())
+    return r
+
+
+def _check_inner(case):
     from qlasskit import qlassf
     from qlasskit.qcircuit.exporter_qasm import QasmExporter
 
